@@ -577,11 +577,14 @@ impl Xot {
 
     /// Iterator over the child nodes of this node, in reverse order.
     pub fn reverse_children(&self, node: Node) -> impl Iterator<Item = Node> + '_ {
-        node.get()
-            .children(self.arena())
-            .rev()
-            .take_while(|n| self.arena[*n].get().is_normal())
-            .map(Node::new)
+        // walk back from the last child; previous_sibling stops at the
+        // attribute and namespace nodes
+        let mut current = self.last_child(node);
+        std::iter::from_fn(move || {
+            let child = current?;
+            current = self.previous_sibling(child);
+            Some(child)
+        })
     }
 
     fn normal_filter(&self) -> impl Fn(&indextree::NodeId) -> bool + '_ {
